@@ -95,15 +95,23 @@ PROPS["C03"] = dict(
     explanation="Private_key.sign executed from the real AST in scalar mode: r = x(kG) mod n, s = k^-1 (e + r d) mod n, RSZeroError iff r or s is 0",
 )
 
+def _c01_b(tier, seed):
+    from contracts.bounded_alg import c01_bounded
+    return c01_bounded(tier, seed)
+
+
 PROPS["C01"] = dict(
     level="proof",
     functions=["ecdsa.ecdsa.Private_key.sign", "ecdsa.ecdsa.Public_key.verifies", "ecdsa.keys._truncate_and_convert_digest",
-               "ecdsa.keys.SigningKey.sign_number", "ecdsa.keys.SigningKey.sign_digest", "ecdsa.keys.VerifyingKey.verify_digest", "ecdsa.util.randrange"],
+               "ecdsa.keys.SigningKey.sign_number", "ecdsa.keys.SigningKey.sign_digest", "ecdsa.keys.VerifyingKey.verify_digest", "ecdsa.util.randrange",
+               "ecdsa.keys.SigningKey.sign_digest_deterministic", "ecdsa.keys.SigningKey.sign", "ecdsa.keys.SigningKey.sign_deterministic", "ecdsa.keys.VerifyingKey.verify"],
     lemmas=["C01.sign_then_verify", "C13.low_s_equivalent"],
-    bounded=[],
+    bounded=[dict(function="ecdsa.keys.SigningKey.sign_digest", label="sign then verify on the real curves", role="CPython cross-check of the proved lemma (concretiser for it)",
+                  bound="5 (quick) / 7 (thorough) curves incl. the non-byte-aligned orders (SECP160r1, NIST521p, SECP112r2) x d in {1, n-1, random} x 4 entry points x digest lengths {1, baselen-1, baselen, baselen+1, 64} x 3 byte patterns x truncation on/off x 2 (quick) / 6 encodings x boundary nonces; crafted digests that drive s to n-1, 1, (n-1)/2, (n+1)/2",
+                  run=_c01_b)],
     min_obligations=10,
     trusted_base=["scalar mode (see C02)", "the matching sigencode/sigdecode pair round-trips (C12, C13 contracts)", "the nonce sources return some k in [1, n-1] (C17 / C04 range contracts)"],
-    explanation="lemma over the contracts of signer, encoder/decoder and verifier: k^-1(e + r d) inverted gives back kG; quantified over all d, k in [1, n-1], all digests, both truncation settings, plain and low-S encoders",
+    explanation="lemma over the contracts of signer, encoder/decoder and verifier: k^-1(e + r d) inverted gives back kG; quantified over all d, k in [1, n-1], all digests, both truncation settings, plain and low-S encoders; every entry point (sign, sign_digest, sign_number, sign_deterministic, sign_digest_deterministic / verify, verify_digest) is under contract: the message-level ones are the digest-level contracts read on hashfunc(data).digest(), the deterministic ones return the standard signature for the RFC 6979 nonce over the same leftmost-bits integer e that the verifier derives",
 )
 
 
@@ -131,7 +139,7 @@ PROPS["C17"] = dict(
 PROPS["C04"] = dict(
     level="proof",
     functions=["ecdsa.rfc6979.bits2int", "ecdsa.rfc6979.bits2octets", "ecdsa.rfc6979.generate_k", "ecdsa.util.number_to_string", "ecdsa.util.number_to_string_crop",
-               "ecdsa.util.orderlen", "ecdsa.keys.SigningKey.sign_digest_deterministic", "ecdsa.keys.SigningKey.sign_digest", "ecdsa.keys.SigningKey.sign_number",
+               "ecdsa.util.orderlen", "ecdsa.keys.SigningKey.sign_digest_deterministic", "ecdsa.keys.SigningKey.sign_deterministic", "ecdsa.keys.SigningKey.sign_digest", "ecdsa.keys.SigningKey.sign_number",
                "ecdsa.ecdsa.Private_key.sign", "ecdsa.keys._truncate_and_convert_digest"],
     lemmas=[],
     bounded=[_B("ecdsa.rfc6979.generate_k", "independent RFC 6979 implementation (spec/rfc6979.py): orders 2..80 (quick) / 2..600 (thorough) + 6 large orders x 3 keys x 7 digest lengths x 4 hashes (4..64-byte outputs) x extra entropy x retry_gen 0..2"),
@@ -201,12 +209,13 @@ PROPS["C05"] = dict(
     level="proof",
     functions=[_EH + f for f in ("_get_shared_secret", "generate_sharedsecret", "generate_sharedsecret_bytes", "load_private_key", "load_received_public_key",
                                  "load_received_public_key_bytes", "load_received_public_key_der", "load_received_public_key_pem",
-                                 "load_private_key_bytes", "load_private_key_der", "load_private_key_pem")] + ["ecdsa.util.number_to_string", "ecdsa.util.orderlen"],
+                                 "load_private_key_bytes", "load_private_key_der", "load_private_key_pem")] + ["ecdsa.util.number_to_string", "ecdsa.util.orderlen",
+                                                                                                                  "ecdsa.keys.VerifyingKey.from_string", "ecdsa.ecdsa.Public_key.__init__", "ecdsa.ecdsa.point_is_valid"],
     lemmas=["C05.both_parties_agree"],
     bounded=[],
     min_obligations=20,
     trusted_base=["scalar mode (see C02): Q_B = d_B G, k*P contract of PointJacobi.__mul__, x() canonical in [0, p-1] (C06)",
-                  "the key constructors VerifyingKey.from_string/from_der/from_pem and SigningKey.from_* are applied by contract (C08/C09/C10): they return a validated key or raise a documented error"],
+                  "the key constructors are applied by contract: VerifyingKey.from_string (with Public_key.__init__ / point_is_valid: a received key is accepted only if it is on the curve and in the subgroup) is verified here as in C08, inheriting finding F7; from_der / from_pem and SigningKey.from_* are C09/C10 contracts"],
     explanation="every ECDH method is executed from the real AST: refusal conditions, InvalidSharedSecretError iff the product is the identity, secret = x(dA dB G), bytes = that integer left-padded to the field length, loaders keep `stored keys are on the agreed curve` and store remote keys only when built with point validation on; symmetry lemma over the contracts",
 )
 
